@@ -115,6 +115,7 @@ const (
 	hInAdd
 	hAdder   // plain handler on A that adds a B
 	hUnreg0  // plain handler on A that calls unregister #0
+	hInAddDefer // run-in-AddEvent handler on B that defers a new B until the next A (re-entrant DelayUntil)
 )
 
 type hRec struct {
@@ -145,6 +146,7 @@ const (
 	opRegBPlain
 	opRegAAdder
 	opRegAUnreg0
+	opRegBInAddDefer
 	opUnreg0
 	opUnreg1
 	opUnreg2
@@ -152,7 +154,7 @@ const (
 	nOps
 )
 
-var opNames = []string{"addA", "addB", "defer(B until A)", "defer(A until B)", "defer(A until A)", "regA", "regA-prio", "regA-inAdd", "regB", "regA-adder", "regA-unreg0", "unreg#0", "unreg#1", "unreg#2", "tick"}
+var opNames = []string{"addA", "addB", "defer(B until A)", "defer(A until B)", "defer(A until A)", "regA", "regA-prio", "regA-inAdd", "regB", "regA-adder", "regA-unreg0", "regB-inAdd-defers", "unreg#0", "unreg#1", "unreg#2", "tick"}
 
 // loopRun executes one operation sequence on a fresh real EventLoop and checks the invariants.
 // It returns "" or a failure description, and the number of dispatched events.
@@ -170,6 +172,7 @@ func loopRun(ops []int, capacity uint) (string, int) {
 		inTick   bool
 		wantDrops []any
 		fail     string
+		late     []any // deferrals made while their trigger was being released: wait for the next A
 	)
 	nextEv := func(isA bool) any {
 		counter++
@@ -210,16 +213,36 @@ func loopRun(ops []int, capacity uint) (string, int) {
 		switch kind {
 		case hPrio:
 			opts = append(opts, eventloop.Prioritize())
-		case hInAdd:
+		case hInAdd, hInAddDefer:
 			opts = append(opts, eventloop.UnsafeRunInAddEvent())
 		}
+		deferred := 0
 		body := func(e any) {
-			log = append(log, logRec{h: h.id, ev: e, inAdd: kind == hInAdd, dispatch: dispatch})
+			log = append(log, logRec{h: h.id, ev: e, inAdd: kind == hInAdd || kind == hInAddDefer, dispatch: dispatch})
 			switch kind {
 			case hAdder:
 				add(nextEv(false))
 			case hUnreg0:
 				callUnreg(0)
+			case hInAddDefer:
+				if deferred < 4 { // bounded: every B seen while being added defers one more B until the next A
+					deferred++
+					x := nextEv(false)
+					// a deferral made while e itself is being released (re-added after an A) waits for the
+					// next A; one made earlier, even during the handling of the current A, is released by it
+					releasing := false
+					for _, wv := range waiting[true] {
+						if wv == e {
+							releasing = true
+						}
+					}
+					if releasing {
+						late = append(late, x)
+					} else {
+						waiting[true] = append(waiting[true], x)
+					}
+					eventloop.DelayUntil[evA](el, x)
+				}
 			}
 		}
 		var un func()
@@ -248,17 +271,22 @@ func loopRun(ops []int, capacity uint) (string, int) {
 		type exp struct{ h *hRec }
 		var must []*hRec
 		for _, h := range handlers {
-			if h.active && h.isA == isAEv(want) && h.kind != hInAdd {
+			if h.active && h.isA == isAEv(want) && h.kind != hInAdd && h.kind != hInAddDefer {
 				must = append(must, h)
 			}
 		}
 		// deferred events released by this dispatch join the FIFO after the handlers ran; the
 		// real loop does that inside Tick, so the model appends them after Tick returns but
 		// before comparing further ticks. In-add handlers for them are checked below.
-		rel := waiting[isAEv(want)]
-		delete(waiting, isAEv(want))
+		late = nil
 		ok := el.Tick(context.Background())
 		inTick = false
+		rel := waiting[isAEv(want)]
+		delete(waiting, isAEv(want))
+		if isAEv(want) && len(late) > 0 {
+			waiting[true] = append(waiting[true], late...)
+		}
+		late = nil
 		if !ok {
 			fail = fmt.Sprintf("Tick returned false with %v pending", want)
 			return false
@@ -316,7 +344,7 @@ func loopRun(ops []int, capacity uint) (string, int) {
 		// I3 for released deferred events: each in-add handler of its type ran exactly once for it
 		for _, e := range rel {
 			for _, h := range handlers {
-				if h.kind == hInAdd && h.isA == isAEv(e) && h.active && h.changedAt != dispatch {
+				if (h.kind == hInAdd || h.kind == hInAddDefer) && h.isA == isAEv(e) && h.active && h.changedAt != dispatch {
 					cnt := 0
 					for _, rc := range recs {
 						if rc.inAdd && rc.h == h.id && rc.ev == e {
@@ -343,7 +371,7 @@ func loopRun(ops []int, capacity uint) (string, int) {
 			add(e)
 			// I3: in-add handlers run exactly once during AddEvent
 			for _, h := range handlers {
-				if h.kind == hInAdd && h.isA == isAEv(e) {
+				if (h.kind == hInAdd || h.kind == hInAddDefer) && h.isA == isAEv(e) {
 					cnt := 0
 					for _, rc := range log[mark:] {
 						if rc.h == h.id && rc.ev == e {
@@ -379,6 +407,8 @@ func loopRun(ops []int, capacity uint) (string, int) {
 			register(true, hAdder)
 		case opRegAUnreg0:
 			register(true, hUnreg0)
+		case opRegBInAddDefer:
+			register(false, hInAddDefer)
 		case opUnreg0, opUnreg1, opUnreg2:
 			callUnreg(op - opUnreg0)
 		case opTick:
@@ -421,7 +451,7 @@ func loopRun(ops []int, capacity uint) (string, int) {
 }
 
 func kindName(k hKind) string {
-	return [...]string{"plain", "priority", "in-add", "adder", "unregisters#0"}[k]
+	return [...]string{"plain", "priority", "in-add", "adder", "unregisters#0", "in-add-defers"}[k]
 }
 
 func opsString(ops []int) string {
@@ -466,7 +496,7 @@ func c14Loop(r *ev.Reporter) {
 					if o >= opUnreg0 && o <= opUnreg2 {
 						regs := 0
 						for _, p := range ops {
-							if p >= opRegAPlain && p <= opRegAUnreg0 {
+							if p >= opRegAPlain && p <= opRegBInAddDefer {
 								regs++
 							}
 						}
